@@ -338,6 +338,24 @@ def body(ctx):
                 break
     finally:
         shutil.rmtree(tmp, ignore_errors=True)
+    # close() called by one thread / task while others are in the middle of operations or start new ones: from the moment close() is
+    # called, whatever is started raises AdbConnectionError and writes nothing (monitor clauses C13.*), under random schedules
+    import random
+    from .. import tour
+    for mode in ('sync', 'async'):
+        prog = {'t1': ['shell'], 't2': ['close'], 't3': ['shell'], 't4': ['flush', 'readw', 'clse']}
+        rep = {'t1': [[1]], 't2': [[]], 't3': [[1, 2]], 't4': [[]]}
+        res = []
+        for k in range(30 if ctx.quick else 600):
+            res += tour.explore(mode, prog, rep, 1, random.Random(ctx.seed * 131 + k), reps={'t1': 2, 't3': 3, 't4': 2})
+        ver, r = tlc.validate_traces('TraceEnv', [t for t, _ in res])
+        ctx.add_tlc(r, 'TraceEnv over %d %s schedules of operations racing with close()' % (len(res), mode))
+        for (i, l, v) in ver:
+            if v.startswith('C13.'):
+                ctx.violation(v, dict(kind='close() racing with operations of other threads', mode=mode, schedule=[list(c) for c in res[i][1]['schedule']][:300], failing_event=l - 1))
+            else:
+                ctx.count(traces=1, evaluations=1)
+        ctx.extra.setdefault('close_race_verdicts', {}).update({mode: sorted(set(v for _, _, v in ver))})
     ctx.count(evaluations=total, distinct=len(full) ** (3 if ctx.quick else 4) + len(classes) ** (4 if ctx.quick else 6))
     alledges = set(json.dumps(op, sort_keys=True) for st in g for op, _ in g[st])
     ctx.extra['model_edge_labels'] = len(alledges)
